@@ -217,11 +217,13 @@ def h_repeat(ctx):
     transform and a unit conversion: every delivery must equal the converted published data, and the publication
     kept by the output must stay what was published.  Float payloads (in-place arithmetic only exists for them)."""
     hlib.reset_finam_state()
-    src_kind = ["esri", "uniform_rev", "uniform"][ctx.choice("src_grid", 3)]
+    src_kind = ["esri", "uniform_rev", "uniform", "square_rev"][ctx.choice("src_grid", 4)]
     g_src = {"esri": lambda: fm.EsriGrid(ncols=3, nrows=2),
              "uniform_rev": lambda: fm.UniformGrid((4, 3), axes_reversed=True),
-             "uniform": lambda: fm.UniformGrid((4, 3))}[src_kind]()
-    g_dst = fm.UniformGrid((4, 3), axes_increase=[True, True])
+             "uniform": lambda: fm.UniformGrid((4, 3)),
+             # square domain: the reversed grid's arrays are indexed [y, x] but have the same shape as [x, y]
+             "square_rev": lambda: fm.UniformGrid((4, 4), axes_reversed=True)}[src_kind]()
+    g_dst = fm.UniformGrid((4, 4) if src_kind == "square_rev" else (4, 3), axes_increase=[True, True])
     pu, cu = [("m", "mm"), ("m", "m"), ("degC", "K")][ctx.choice("units", 3)]
     out = fm.Output(name="out", info=fm.Info(time=hlib.T0, grid=g_src, units=pu))
     ins = [fm.Input(name=f"in{k}", info=fm.Info(time=hlib.T0, grid=g_dst, units=cu)) for k in range(2)]
@@ -247,6 +249,10 @@ def h_repeat(ctx):
         ctx.check(bool(np.allclose(m, first)), "repeated-delivery-differs", {"sig": f"{src_kind}:{pu}->{cu}:pull{k}"})
         ctx.check(bool(np.allclose(np.sort(m.ravel()), np.sort((keep * (c1 - c0) + c0).ravel()))),
                   "delivery-not-the-converted-publication", {"sig": f"{src_kind}:{pu}->{cu}:pull{k}"})
+        if src_kind == "square_rev":
+            # value published for cell (y, x) of the [y, x]-indexed source arrives at [x, y]
+            ctx.check(bool(np.allclose(m[0] if m.ndim == 3 else m, (keep * (c1 - c0) + c0).T)),
+                      "delivered-values-at-other-cells", {"sig": f"{src_kind}:{pu}->{cu}:pull{k}"})
     ctx.check(bool(np.array_equal(pub, keep)), "published-array-modified", {"sig": f"{src_kind}:{pu}->{cu}"})
     stored = np.asarray(out.data[-1][1].magnitude, dtype=float)
     ctx.check(bool(np.allclose(stored.reshape(-1), keep.reshape(-1))), "retained-publication-modified",
